@@ -142,31 +142,6 @@ func zzIndexStep(e *zzEnv, step string, m []byte, o string, s int64) {
 	case "report":
 		msg := types.MsgReport{Creator: zzverif.NondetAddr("signer"), Prover: zzverif.NondetAddr("prover"), Merkle: m, Owner: o, Start: s}
 		zzverif.Deliver(func() error { _, er := e.srv.Report(wctx, &msg); return er })
-	case "reward":
-		// the per-file part of a reward block: drop the file if it deserves it, then judge each listed prover
-		f, found := e.k.GetFile(e.ctx, m, o, s)
-		zzverif.Assume(found)
-		f.Merkle, f.Owner, f.Start = m, o, s // key fields as looked up (equal by A-WF)
-		for i, pk := range f.Proofs {        // listed keys spelled as their records rebuild them (equal by I2)
-			if p, ok := e.k.GetProofWithBuiltKey(e.ctx, []byte(pk)); ok {
-				f.Proofs[i] = f.MakeProofKey(p.Prover)
-			}
-		}
-		// the burn counter of a dropped prover is a provider-record matter (C02/C03), not an index matter
-		zzverif.Override("(github.com/jackalLabs/canine-chain/v4/x/storage/keeper.Keeper).burnContract", func(k Keeper, ctx sdk.Context, providerAddress string) {})
-		tracker := make(map[string]int64)
-		zzverif.Override("(*github.com/jackalLabs/canine-chain/v4/x/storage/types.UnifiedFile).ProvenLastBlock",
-			func(f *types.UnifiedFile, height int64, lastProven int64) bool {
-				return zzverif.NondetBool("proven.last.window")
-			})
-		zzverif.Try(func() {
-			e.k.removeFileIfDeserved(e.ctx, &f)
-			proofs := make([]string, len(f.Proofs))
-			copy(proofs, f.Proofs)
-			for _, pk := range proofs {
-				e.k.manageProof(e.ctx, &tracker, &f, pk)
-			}
-		})
 	}
 }
 
@@ -194,10 +169,20 @@ func VH_C17_proof()  { zzIndexTarget("proof") }
 func VH_C17_delete() { zzIndexTarget("delete") }
 func VH_C17_attest() { zzIndexTarget("attest") }
 func VH_C17_report() { zzIndexTarget("report") }
-func VH_C17_reward() { zzIndexTarget("reward") }
+
+// VH_C17_reward: a whole reward block (the real ManageRewards: drop of files without provers, judgement of
+// every listed prover, payouts) over a closed store holding one file with up to two provers built so that
+// the invariant holds; the invariant holds again afterwards. (The gauge payout is cut as in C03.)
+func VH_C17_reward() {
+	w := zzRewardSetup(2, 1, 1<<40)
+	e := w.e
+	panicked := zzverif.Try(func() { e.k.ManageRewards(w.ctx) })
+	zzverif.Assert(!panicked, "C17/reward-block-does-not-panic")
+	zzverif.Cover("C17/reward-target-done")
+	zzAssertInv(e, w.file.Merkle, w.file.Owner, w.file.Start, "reward")
+}
 
 // (the "other file" variants of post and proof are not registered: their key-disjointness queries are left
 // undecided by both solvers within the time limit -- see DESIGN)
 func VH_C17_other_delete() { zzIndexOther("delete") }
 func VH_C17_other_report() { zzIndexOther("report") }
-func VH_C17_other_reward() { zzIndexOther("reward") }
